@@ -583,6 +583,12 @@ mod handlers {
             (source, target, parent_path)
         };
 
+        // A file is named by the checksum of its contents,
+        // moving it must not change the name
+        if query.name != file_name {
+            return Err(Error::BadRequest);
+        }
+
         if !tokio::fs::try_exists(&source_path).await? {
             return Err(Error::Status(StatusCode::NOT_FOUND));
         }
